@@ -2336,7 +2336,11 @@ func (r *Run) inlineDecl(fn *types.Func, recv Val, call *ast.CallExpr, env *Env,
 			depth++
 		}
 	}
-	if depth > r.W.RecLimit || len(r.stack) > r.W.MaxDepth {
+	recLimit := r.W.RecLimit
+	if r.W.Concrete {
+		recLimit = 8 // concrete descriptor values are finite trees: a walk over them (message → map entry → value message) is followed
+	}
+	if depth > recLimit || len(r.stack) > r.W.MaxDepth {
 		if r.W.emitter[fn] {
 			r.Trunc++
 		}
